@@ -170,6 +170,36 @@ def run_a1(case, ctx):
       ctx.violation({"part": "A", "kind": "arguments_differ_from_python", "literal": cls_bad},
                     "%s -> args=%r kwargs=%r, Python gives args=%r kwargs=%r" % (txt, got[0], got[1], want[0], want[1]),
                     {"text": txt})
+      continue
+    # ---- history independence: the same text parsed again after (a) a parse of the same text with extra
+    # positional / keyword parameters (safe_eval's own *params / **kwparams interface) and (b) in-place
+    # modification of what the first parse handed to the constructor must give the same arguments again
+    try:
+      rec2 = Recorder()
+      safe_eval(txt, {"stub": rec2}, 7, zz_extra="x")
+      for v in list(got[0]) + list(got[1].values()):
+        if isinstance(v, list):
+          v.append(99)
+      got[0].append("injected")
+      got[1]["zz_injected"] = 1
+      rec3 = Recorder()
+      safe_eval(txt, {"stub": rec3})
+    except Exception as e:  # pylint: disable=broad-except
+      ctx.violation({"part": "A", "kind": "reparse_raises", "exc": type(e).__name__}, "%s: %s" % (txt, str(e)[:120]), {"text": txt})
+      continue
+    ctx.count("A1.reparsed_after_interference")
+    g2, g3 = rec2.calls[0], rec3.calls[0]
+    ok2 = len(g2[0]) == len(want[0]) + 1 and all(same(a, b) for a, b in zip(g2[0], want[0] + [7])) and \
+        set(g2[1]) == set(want[1]) | {"zz_extra"} and all(same(g2[1][k], want[1][k]) for k in want[1])
+    ok3 = len(g3[0]) == len(want[0]) and all(same(a, b) for a, b in zip(g3[0], want[0])) and \
+        set(g3[1]) == set(want[1]) and all(same(g3[1][k], want[1][k]) for k in want[1])
+    if not ok2:
+      ctx.violation({"part": "A", "kind": "extra_parameters_not_appended"},
+                    "%s with extra (7, zz_extra='x') -> args=%r kwargs=%r" % (txt, g2[0], g2[1]), {"text": txt})
+    if not ok3:
+      ctx.violation({"part": "A", "kind": "parse_depends_on_history"},
+                    "%s parsed again after an extra-parameter parse and in-place edits -> args=%r kwargs=%r, Python gives %r %r" % (
+                        txt, g3[0], g3[1], want[0], want[1]), {"text": txt})
   # malformed order must be rejected
   for j in range(20):
     txt = gtext.misordered(rnd, gtext.CORE)
